@@ -187,6 +187,7 @@ def dispatch (fn : String) (j : Json) : P Json := do
   | "clientProtocol" => clientProtocolFn j
   | "fieldType" => fieldTypeFn j
   | "names" => namesFn j
+  | "monitorAccepted" => monitorAcceptedFn j
   | _ => throw s!"unknown fn {fn}"
 
 def handle (line : String) : String :=
